@@ -81,6 +81,8 @@ let table : (str * (z list -> z)) list = [
   ("reprt", judge_reprt);
   ("tu_net", judge_tu_net);
   ("regular_cert", judge_regular_cert);
+  ("equi_cert", judge_equi_cert);
+  ("balanced_cert", judge_balanced_cert);
   ("cliverdict", judge_cliverdict);
 ]
 
